@@ -393,6 +393,42 @@ theorem gresize_ok (g : G) (a n : Nat) (h : GInv g) :
       · rw [if_neg hc]; exact Or.inl rfl)
   exact ⟨hG, setFile_file_same _ _ _, fun b hb p => other_byte g a b _ hb (hoth b hb) p⟩
 
+/-- dropping the content of a file (SETATTR size 0, the removal of the last link) gives back EVERY
+    block the file had: the file maps nothing, and each of its former blocks belongs to nobody and
+    holds zeros -/
+theorem gresize_zero_frees_everything (g : G) (a : Nat) (h : GInv g) :
+    (∀ i, (g.resize a 0).maps a i = 0) ∧
+    ∀ i, g.maps a i ≠ 0 →
+      (∀ b j, (g.resize a 0).maps b j ≠ g.maps a i) ∧ ∀ o, (g.resize a 0).data (g.maps a i) o = 0 := by
+  obtain ⟨hG, hown, _⟩ := gresize_ok g a 0 h
+  have hmap : ∀ i, (g.resize a 0).maps a i = 0 := by
+    intro i
+    have e : (g.resize a 0).maps a i = ((g.file a).resizeZ 0).map i := by
+      show (g.setFile a _).maps a i = _
+      unfold G.setFile; simp
+    rw [e, resizeZ_map, resize_map]
+    by_cases hc : 0 < (g.file a).size ∧ roundUp 0 ≤ i
+    · rw [if_pos hc]
+    · rw [if_neg hc]
+      apply h.beyond a i
+      by_cases hs : 0 < (g.file a).size
+      · exact absurd ⟨hs, by unfold roundUp BS; omega⟩ hc
+      · have : (g.file a).size = 0 := by omega
+        rw [this]; unfold roundUp BS; omega
+  refine ⟨hmap, ?_⟩
+  intro i hi
+  have hnone : ∀ b j, (g.resize a 0).maps b j ≠ g.maps a i := by
+    intro b j
+    by_cases hb : b = a
+    · subst hb; rw [hmap j]; exact fun e => hi e.symm
+    · have e2 : (g.resize a 0).maps b j = g.maps b j := by
+        show (g.setFile a _).maps b j = _
+        rw [setFile_maps_other g a b _ hb]
+      rw [e2]
+      intro he
+      exact hb (h.ginj a i b j hi he.symm).1.symm
+  exact ⟨hnone, hG.zout _ hi hnone⟩
+
 /-! ### histories over many files -/
 
 inductive GOp where
